@@ -9,6 +9,7 @@ from dataclasses import dataclass, field
 from pathlib import Path
 
 import runner
+import native
 from runner import Job
 
 REPLAY_DIR = runner.EVIDENCE / "replay"
@@ -203,15 +204,22 @@ C07_THOROUGH = ["csi_k5_s6", "csi_k5_s3", "csi_k5_s12", "csi_k5_s1", "csi_k6_s0"
 
 def jobs_c06(tier, seed):
     f = ["c06"]
-    jobs = [
-        J("c06::write_1", features=f, timeout_s=1200, bound="one write() of a 1-byte buffer from any state reachable by a 2-byte prefix; script: 4 accept sizes (any), one error of any kind at any inner call"),
-        J("c06::write_2", features=f, timeout_s=1800, mem_gb=16, bound="one write() of a 2-byte buffer, same script space"),
-        J("c06::write_all_2", features=f, timeout_s=1800, mem_gb=16, bound="one write_all() of a 2-byte buffer from any carried state; error of any kind at any inner call"),
-        J("c06::write_fmt_2", features=f, timeout_s=1800, mem_gb=16, bound="write_fmt of two 1-byte ASCII fragments; error at any inner call"),
-        J("c06::write_vectored_2", features=f, timeout_s=1800, mem_gb=16, bound="write_vectored of (<=1 byte, 2 bytes); any accept sizes"),
+    desc = "one write() of {n} symbolic byte(s) from the state carried after the prefix {p}; inner writer script: accept sizes in {{0,1,2,3,all}} per call, one error (Interrupted/WouldBlock/Other) at any inner call or none"
+    w1 = [("write_1_ground", "''"), ("write_1_escape", "ESC"), ("write_1_csi", "ESC ["), ("write_1_utf8_1", "E2"), ("write_1_utf8_2", "F0 9F")]
+    w2 = [("write_2_ground", "''"), ("write_2_escape", "ESC"), ("write_2_csi", "ESC ["), ("write_2_osc", "ESC ]"), ("write_2_utf8_1", "E2"), ("write_2_utf8_2", "F0 9F")]
+    jobs = []
+    # quick: two carried states, rotated by the seed; thorough: all
+    pick = w1 if tier == "thorough" else [w1[3], w1[(seed + 1) % len(w1) if (seed + 1) % len(w1) != 3 else 0]]
+    for n, p in pick:
+        jobs.append(J(f"c06::{n}", features=f, timeout_s=3600, mem_gb=24, bound=desc.format(n=1, p=p)))
+    jobs += [
+        J("c06::write_all_2", features=f, timeout_s=3600, mem_gb=24, bound="one write_all() of a 2-byte buffer from any state reachable by a 2-byte prefix; error of any kind at any inner call"),
+        J("c06::write_fmt_2", features=f, timeout_s=3600, mem_gb=24, bound="write_fmt of two 1-byte ASCII fragments; error at any inner call"),
     ]
     if tier == "thorough":
-        jobs.append(J("c06::write_3", features=f, timeout_s=3 * 3600, mem_gb=24, optional=True, bound="one write() of a 3-byte buffer, same script space"))
+        jobs.append(J("c06::write_vectored_2", features=f, timeout_s=2 * 3600, mem_gb=30, optional=True, bound="write_vectored of (<=1 byte, 2 bytes); any accept sizes"))
+        for n, p in w2:
+            jobs.append(J(f"c06::{n}", features=f, timeout_s=3 * 3600, mem_gb=30, optional=True, bound=desc.format(n=2, p=p)))
     return jobs
 
 
@@ -257,6 +265,19 @@ def jobs_c20(tier, seed):
     return jobs
 
 
+def jobs_c19(tier, seed):
+    f = ["c19"]
+    kinds = ["write", "write_all", "write_vectored", "write_fmt", "flush"]
+    jobs = []
+    for wrap, what in [("auto_never", "AutoStream::never"), ("auto_always_ansi", "AutoStream::always_ansi"), ("strip", "StripStream")]:
+        for k in kinds:
+            heavy = wrap != "auto_always_ansi" and k in ("write", "write_vectored")
+            jobs.append(J(f"c19::lock_once_{wrap}_{k}", features=f, timeout_s=3600 if heavy else 1800, mem_gb=24 if heavy else 16,
+                          bound=f"{what} over a lock-counting probe stream: one {k} call with a symbolic <=2-byte payload (write_fmt: two 1-byte fragments)"))
+    jobs.append(J("c19::global_choice_register", features=f, timeout_s=600, bound="ColorChoice::write_global / global: any two writes (sequential)"))
+    return jobs
+
+
 def jobs_c07(tier, seed):
     f = ["c07"]
 
@@ -273,7 +294,9 @@ def jobs_c07(tier, seed):
         # rotate two of the deeper shapes into the quick tier
         extra = C07_THOROUGH[seed % len(C07_THOROUGH)], C07_THOROUGH[(seed + 5) % len(C07_THOROUGH)]
         names += [e for e in extra if e not in names]
-    jobs = [J(f"c07::harness::{n}", features=f, timeout_s=1200, bound=shape(n)) for n in names]
+    # some shapes have no well-formed reading at all (e.g. four values joined by ':'): the
+    # "style changed" witnesses are then unsatisfiable by design; one reached witness suffices
+    jobs = [J(f"c07::harness::{n}", features=f, timeout_s=1200, bound=shape(n), all_covers=False, min_covers=1) for n in names]
     jobs.append(J("c07::harness::combined_equals_separate_2", features=f, timeout_s=1200, bound="a;b vs a then b: all pairs of single-parameter codes (free u16 x free u16), any prior style"))
     jobs.append(J("c07::harness::non_sgr_changes_nothing", features=f, timeout_s=1200, bound="any final byte other than m, or ignore flag set; ESC/OSC/DCS callbacks; any prior style"))
     return jobs
@@ -392,6 +415,7 @@ REGISTRY = {
     },
     "C09": {
         "jobs": jobs_c09,
+        "custom_replay": native.replay_c09,
         "level": "proof",
         "functions": ["anstream::auto::choice via AutoStream::choice / AutoStream::auto", "anstyle_query::{clicolor,clicolor_force,no_color,term_supports_color,term_supports_ansi_color,truecolor,is_ci,non_empty}", "colorchoice::ColorChoice::{global,write_global}, AtomicChoice", "colorchoice_clap::Color::{as_choice,write_global}", "anstream::stream::IsTerminal for Stdout / Vec<u8>"],
         "bounds": {"quick": "complete over the configuration domain: 4 global choices x 9^6 variable assignments x {terminal, not a terminal}", "thorough": "same"},
@@ -403,7 +427,7 @@ REGISTRY = {
         "jobs": jobs_c06,
         "level": "model_checking",
         "functions": ["anstream::strip::{write, write_all, write_fmt, offset_to} behind StripStream::<&mut dyn Write>::{write, write_vectored, write_all, write_fmt}", "anstream::fmt::Adapter::{write_fmt, write_str}", "anstream::adapter::StripBytes::strip_next"],
-        "bounds": {"quick": "single-call lemma from any state reachable by a 2-byte prefix: buffers <=2 bytes (all values), scripts of <=4 inner calls with arbitrary accept sizes and <=1 injected error of kind Interrupted/WouldBlock/Other", "thorough": "buffers <=3 bytes"},
+        "bounds": {"quick": "write(): 1 symbolic byte from 2 of 5 concrete carried states (Ground, Escape, CsiEntry, inside a 3-byte and a 4-byte character), scripts of <=4 inner calls with accept sizes {0,1,2,3,all} and <=1 injected error of kind Interrupted/WouldBlock/Other; write_all / write_fmt: 2 bytes from any state reachable by a 2-byte prefix", "thorough": "write(): 1 and 2 symbolic bytes from all carried states; write_vectored"},
         "outside": "longer buffers within one call; more than one injected error per call; the protocol over several calls follows by induction from the lemma's state clause (not unrolled)",
         "assumptions": ["the reference for 'stripped form' is an independent copy of StripBytes run on the consumed prefix (C01 ties StripBytes to the model)", "hook StripStream::verif_state observes the carried state", "inputs of the recorded C01 finding class (control byte inside broken UTF-8) are excluded while that finding is open"],
     },
@@ -414,6 +438,16 @@ REGISTRY = {
         "bounds": {"quick": "colour capping complete; write loop: skeleton input of 11 bytes with one SGR sequence (3 visible bytes, 2 colour digits symbolic), every 2-chunk split, console scripts of <=6 calls with arbitrary short counts and one injected error", "thorough": "same"},
         "outside": "other input shapes (the run extraction itself is C07); more than two chunks; Interrupted errors (retried by design, would need an unbounded loop)",
         "assumptions": ["stand-ins for crate::stream::{AsLockedWrite,IsTerminal} (harness/wincon/src/lib.rs) mirror the Windows bounds; crate::adapter and crate::fmt are the real code"],
+    },
+    "C19": {
+        "jobs": jobs_c19,
+        "level": "other",
+        "level_text": "Sequential reduction only: the solver shows, for every input within the bound, that each write-family call on AutoStream / StripStream acquires the stream's lock exactly once and performs all inner writes while holding it, and that the global choice reads back the last write. Thread schedules are not explored (Kani has no concurrency support); contiguity for every schedule follows only under the stated assumptions about std's stdout/stderr lock. If that is judged not to decide the property, C19 belongs under not_applicable.",
+        "explanation": "Lock-discipline lemma decided by bounded model checking of the real code with a lock-counting probe stream (hook: sealed-trait re-export). NOT a schedule exploration: the property's quantifier over schedules is discharged by assumption (std's ReentrantLock around stdout/stderr is mutual exclusion; SeqCst atomics are linearizable; each print macro expands to one write_fmt on a fresh handle).",
+        "functions": ["anstream::AutoStream::<S>::{write,write_all,write_vectored,write_fmt,flush} (PassThrough and Strip arms)", "anstream::StripStream::<S>::{write,write_all,write_vectored,write_fmt,flush}", "anstream::stream::AsLockedWrite (probe implementation)", "colorchoice::{ColorChoice::global, write_global, AtomicChoice}"],
+        "bounds": {"quick": "one call of any kind with a symbolic <=2-byte payload (write_fmt: two 1-byte fragments) per stream wrapper; two sequential writes of the global choice", "thorough": "same"},
+        "outside": "all thread schedules (assumed, not explored); the print macros' expansion (read, not encoded); real stdout/stderr",
+        "assumptions": ["std::io::Stdout/Stderr::lock is a mutual-exclusion (reentrant) lock", "SeqCst atomic load/store is linearizable", "each print/println/eprint macro call expands to one write_fmt call"],
     },
     "C20": {
         "jobs": jobs_c20,
@@ -443,6 +477,7 @@ REGISTRY = {
     },
     "C12": {
         "jobs": jobs_c12,
+        "custom_replay": native.replay_c12,
         "level": "model_checking",
         "functions": ["anstyle_ls::parse (split, Option-collect into VecDeque, queue-driven code interpreter with 38/48/58 look-ahead)", "std VecDeque / str::split as compiled by Kani"],
         "bounds": {"quick": "every list of <=3 codes, each code any value 0..=255; any single field rejected by number parsing", "thorough": "lists of <=6 codes (5 and 6 optional)"},
@@ -555,7 +590,7 @@ REGISTRY = {
 # ---------------------------------------------------------------------------------------
 
 
-def save_replay(prop, job, test) -> str:
+def save_replay(prop, job, test, extra=None) -> str:
     d = REPLAY_DIR / prop
     d.mkdir(parents=True, exist_ok=True)
     safe = re.sub(r"[^A-Za-z0-9_]+", "_", job.name)
@@ -573,6 +608,7 @@ def save_replay(prop, job, test) -> str:
                 "values_in_any_order": runner.decode_values(test["code"]),
                 "code": test["code"],
                 "how_to_replay": f"./check {prop} --replay {p}",
+                **(extra or {}),
             },
             indent=1,
         )
@@ -654,7 +690,14 @@ def run_property(prop, spec, tier, seed, kf, only=None) -> Outcome:
             else:
                 handler = spec.get("custom_replay")
                 if handler:
-                    handler(prop, j, r, out)
+                    tests = runner.extract_playback(prop, crate_dirs[j.crate], j, idx)
+                    if not tests:
+                        out.inconclusive.append(f"{j.name}: FAILED but no concrete counterexample could be extracted")
+                    else:
+                        try:
+                            handler(prop, j, tests, out, save_replay)
+                        except Exception as e:
+                            out.inconclusive.append(f"{j.name}: FAILED; native confirmation crashed: {type(e).__name__}: {e}")
                 else:
                     out.inconclusive.append(f"{j.name}: FAILED; no native replay available for this query")
         elif j.optional and r.status in ("timeout", "oom"):
